@@ -31,7 +31,14 @@ def gen_deploy(rnd, name, hosts_pool):
         tls, cert = True, "bad"
     return {"op": "deploy", "name": name, "hosts": hosts, "prefixes": list(rnd.choice(ROOT_PREFIXES if root else SUB_PREFIXES)),
             "tls": tls, "tls_redirect": rnd.random() < 0.65, "strip": rnd.random() < 0.5, "cert": cert, "pages": "none",
-            "topts": 0, "targets": [{"name": rnd.choice(TARGETS), "healthy": True}]}
+            "topts": rnd.choice([0, 0, 2]),      # 2: header forwarding on (client-supplied X-Forwarded-* are passed on to the target)
+            "targets": [{"name": rnd.choice(TARGETS), "healthy": True}]}
+
+
+# client-supplied headers that claim another scheme / host: the TLS policy looks at the connection, never at these
+CLAIMS = [[(b"X-Forwarded-Proto", b"https")], [(b"X-Forwarded-Proto", b"http")], [(b"X-Forwarded-Ssl", b"on")],
+          [(b"Forwarded", b"proto=https;host=a.example.com")], [(b"X-Forwarded-Host", b"b.example.com"), (b"X-Forwarded-Proto", b"https")],
+          [(b"X-Forwarded-Port", b"443")], [(b"Front-End-Https", b"on")], [(b"X-Forwarded-Proto", b"HTTPS, http")]]
 
 
 def gen_history(rnd, n):
@@ -109,7 +116,8 @@ def gen_matrix(rnd, hist, i, pool, k):
         uri = path + rnd.choice(QUERIES)
         assert not uri.startswith(ACME_PREFIX)
         reqs.append({"host": host, "uri": uri, "tls": rnd.random() < 0.4, "cookie": None,
-                     "method": rnd.choice(["GET", "GET", "POST", "HEAD"])})
+                     "method": rnd.choice(["GET", "GET", "POST", "HEAD"]),
+                     "xhdrs": rnd.choice(CLAIMS) if rnd.random() < 0.3 else []})
     return reqs
 
 
